@@ -2,11 +2,13 @@
    Statements only.  What is a theorem here: the arithmetic that makes splitting by ANY
    positive step (dividing the extent or not, exceeding it or not), in stacks of ANY depth,
    lossless and duplicate-free, the n-way step formula, and recovery of the original
-   coordinate by the absolute merge.  What is NOT a theorem yet (named _partial): the
+   coordinate by the absolute merge; and (theorems C02_rt_...) the laws of the runtime operations themselves, on
+   the very functions the interpreter runs (Rt.split_uniform, Rt.merge1), for fibers of ANY size:
+   splitUniform cuts a sorted fiber into consecutive non-empty pieces and mergeRanks restores it.  What is NOT a theorem yet (named _partial): the
    statement about whole emitted programs; that half is the kernel-evaluated execution of
    every emitted program against the dense oracle (tools/props/c02.py). *)
-From Coq Require Import ZArith List.
-Require Import TV.Proofs.SplitArith.
+From Coq Require Import ZArith List Sorted.
+Require Import TV.Model.Rt TV.Proofs.SplitArith TV.Proofs.RtLaws.
 Import ListNotations.
 Open Scope Z_scope.
 
@@ -26,3 +28,51 @@ Proof. exact nway_at_most_n_parts. Qed.
 
 Theorem C02_merge_recovers_coordinate : forall steps c, last (chain steps c ++ [c]) 0 = c.
 Proof. exact merge_recovers. Qed.
+
+(* ---- laws of the modelled runtime operations (Proofs/RtLaws.v) ---- *)
+
+(* (a) splitUniform(step): partitions are sorted, at non-negative multiples of step, non-empty, each holds exactly
+   the window [step*k, step*k+step) of the fiber, every element's home partition exists, and the partitions
+   concatenated in order give back the fiber (each element in exactly one partition, order kept) *)
+Theorem C02_rt_split_uniform_partition : forall step l, 0 < step -> int_sorted l -> nonneg_keys l ->
+  exists parts, split_uniform step 0 0 (TNode l) = Some (TNode parts) /\
+    int_sorted parts /\
+    Forall (fun pt => exists k, 0 <= k /\ pt = (VInt (step * k), TNode (su_sel step 0 0 (step * k) l)) /\
+                                su_sel step 0 0 (step * k) l <> []) parts /\
+    (forall ct, In ct l -> In (VInt (upper step (kz ct)), TNode (su_sel step 0 0 (upper step (kz ct)) l)) parts) /\
+    concat (lowers parts) = l.
+Proof. exact split_uniform_partition. Qed.
+
+(* (b) split then merge is the identity *)
+Theorem C02_rt_split_uniform_merge1 : forall step l, 0 < step -> int_sorted l -> nonneg_keys l ->
+  exists t', split_uniform step 0 0 (TNode l) = Some t' /\ merge1 t' = Some (TNode l).
+Proof. exact split_uniform_merge1. Qed.
+
+(* (c) with halos: a partition exists iff it is a non-negative multiple of step whose window
+   [p - pre, p + step + post) holds an element; it holds exactly the elements of that window *)
+Theorem C02_rt_split_uniform_halo : forall step pre post l, 0 < step -> Forall int_key l ->
+  exists parts, split_uniform step pre post (TNode l) = Some (TNode parts) /\
+    int_sorted parts /\
+    (forall pt, In pt parts <->
+       exists k ct, 0 <= k /\ In ct l /\ step * k - pre <= kz ct < step * k + step + post /\
+                    pt = (VInt (step * k), TNode (su_sel step pre post (step * k) l))) /\
+    (forall p ct, In ct (su_sel step pre post p l) <-> In ct l /\ p - pre <= kz ct < p + step + post).
+Proof. exact split_uniform_halo. Qed.
+
+Theorem C02_rt_split_uniform_halo_home : forall step pre post l ct, 0 < step -> 0 <= pre -> 0 <= post -> Forall int_key l ->
+  In ct l -> 0 <= kz ct ->
+  exists parts, split_uniform step pre post (TNode l) = Some (TNode parts) /\
+    In (VInt (upper step (kz ct)), TNode (su_sel step pre post (upper step (kz ct)) l)) parts /\
+    In ct (su_sel step pre post (upper step (kz ct)) l).
+Proof. exact split_uniform_halo_home. Qed.
+
+(* mergeRanks of ANY two-level trie whose lower fibers are consecutive pieces of a sorted fiber is that fiber *)
+Theorem C02_rt_merge1_concat : forall parts, all_nodes parts -> int_sorted (concat (lowers parts)) ->
+  merge1 (TNode parts) = Some (TNode (concat (lowers parts))).
+Proof. exact merge1_concat. Qed.
+
+(* (b) at any depth: the interpreter applies the operations to every fiber at depth d (Rt.tmap_depth) *)
+Theorem C02_rt_split_uniform_merge1_depth : forall d step t, 0 < step ->
+  at_depth d (fiber_ok (fun l => int_sorted l /\ nonneg_keys l)) t ->
+  exists t', tmap_depth d (split_uniform step 0 0) t = Some t' /\ tmap_depth d merge1 t' = Some t.
+Proof. exact split_uniform_merge1_depth. Qed.
